@@ -187,6 +187,25 @@ where
     Some(table)
 }
 
+/// Verification hook (only with `--cfg similar_verif`): the entries of the
+/// table built for the given ranges, in key order (`None`: deadline exceeded).
+#[cfg(similar_verif)]
+#[allow(clippy::type_complexity)]
+pub fn verif_make_table<Old, New>(
+    old: &Old,
+    old_range: Range<usize>,
+    new: &New,
+    new_range: Range<usize>,
+    deadline: Option<Instant>,
+) -> Option<Vec<((usize, usize), u32)>>
+where
+    Old: Index<usize> + ?Sized,
+    New: Index<usize> + ?Sized,
+    New::Output: PartialEq<Old::Output>,
+{
+    make_table(old, old_range, new, new_range, deadline).map(|t| t.into_iter().collect())
+}
+
 #[test]
 fn test_table() {
     let table = make_table(&vec![2, 3], 0..2, &vec![0, 1, 2], 0..3, None).unwrap();
